@@ -12,6 +12,32 @@ const maxInstCands = 48
 // fresh constants; returns the new goal and the skolem constants.
 func skolemize(goal *Term) (*Term, []*Term) { return skolemizePol(goal, true) }
 
+// skolemKeep: quantified sub-formulas that also occur verbatim in a hypothesis are left intact in the
+// goal, so that "the goal is literally one of the hypotheses" stays a propositional step.
+var skolemKeep map[int]bool
+
+func quantIDs(ts []*Term) map[int]bool {
+	out := map[int]bool{}
+	seen := map[int]bool{}
+	var rec func(t *Term)
+	rec = func(t *Term) {
+		if seen[t.id] {
+			return
+		}
+		seen[t.id] = true
+		if t.op == "forall" || t.op == "exists" {
+			out[t.id] = true
+		}
+		for _, a := range t.args {
+			rec(a)
+		}
+	}
+	for _, t := range ts {
+		rec(t)
+	}
+	return out
+}
+
 // skolemizeHyp: positive existentials (negative universals) of an assumed formula.
 func skolemizeHyp(h *Term) (*Term, []*Term) { return skolemizePol(h, false) }
 
@@ -43,6 +69,9 @@ func skolemizePol(goal *Term, goalSide bool) (*Term, []*Term) {
 			}
 			return Not(n)
 		case "forall", "exists":
+			if goalSide && skolemKeep != nil && skolemKeep[t.id] {
+				return t
+			}
 			if ((t.op == "forall") == pos) == goalSide && !t.bound {
 				m := map[int]*Term{}
 				for _, bv := range t.args[:len(t.args)-1] {
@@ -320,11 +349,17 @@ func dropQuant(t *Term) (*Term, bool) {
 			}
 			return Not(n)
 		case "forall":
+			if dropKeep != nil && dropKeep[t.id] {
+				return t
+			}
 			if pos && !t.bound {
 				dropped = true
 				return True
 			}
 		case "exists":
+			if dropKeep != nil && dropKeep[t.id] {
+				return t
+			}
 			if !pos && !t.bound {
 				dropped = true
 				return False
@@ -358,3 +393,8 @@ func hasQuant(t *Term) bool {
 }
 
 var idxCandLimit = 6
+
+// dropKeep: quantified sub-formulas shared verbatim by goal and hypotheses act as propositional atoms;
+// the instances-only weakening keeps them.
+var dropKeep map[int]bool
+
